@@ -27,6 +27,7 @@
 #include <stdlib.h>
 #include <stdint.h>
 #include <stdbool.h>
+#include <limits.h>
 #include <zck.h>
 #include "zck_private.h"
 
@@ -48,37 +49,41 @@ int compint_to_size(zckCtx *zck, size_t *val, const char *compint,
     VALIDATE_BOOL(zck);
 
     *val = 0;
-    size_t old_val = 0;
     const unsigned char *i = (unsigned char *)compint;
-    int count = 0;
-    bool done = false;
+    /* compint points at offset *length of a buffer that is max_length bytes
+     * long, so this is how many bytes we're allowed to look at */
+    size_t remaining = 0;
+    if(*length < max_length)
+        remaining = max_length - *length;
+    size_t count = 0;
     while(true) {
-        size_t c = i[0];
-        if(c >= 128) {
-            c -= 128;
-            done = true;
-        }
-        /* There *must* be a more elegant way of doing c * 128**count */
-        for(int f=0; f<count; f++)
-            c *= 128;
-        *val += c;
-        (*length) = (*length) + 1;
-        count++;
-        if(done)
-            break;
-        i++;
-        /* Make sure we're not overflowing and fail if we do */
-        if(count >= MAX_COMP_SIZE || count >= max_length || *val < old_val) {
-            if(count > max_length)
-                set_fatal_error(zck, "Read past end of header");
-            else
-                set_fatal_error(zck, "Number too large");
-            *length -= count;
+        if(count >= remaining) {
+            set_fatal_error(zck, "Read past end of header");
             *val = 0;
             return false;
         }
-        old_val = *val;
+        if(count >= MAX_COMP_SIZE) {
+            set_fatal_error(zck, "Number too large");
+            *val = 0;
+            return false;
+        }
+        size_t c = i[count] & 127;
+        bool done = i[count] >= 128;
+        /* Make sure we're not overflowing and fail if we do */
+        size_t shift = 7 * count;
+        if(c != 0 && (shift >= sizeof(size_t) * 8 ||
+                      c > (SIZE_MAX >> shift))) {
+            set_fatal_error(zck, "Number too large");
+            *val = 0;
+            return false;
+        }
+        if(c != 0)
+            *val += c << shift;
+        count++;
+        if(done)
+            break;
     }
+    (*length) += count;
     return true;
 }
 
@@ -101,10 +106,10 @@ int compint_to_int(zckCtx *zck, int *val, const char *compint, size_t *length,
     size_t new = (size_t)*val;
     if(!compint_to_size(zck, &new, compint, length, max_length))
         return false;
-    *val = (int)new;
-    if(*val < 0) {
-        set_fatal_error(zck, "Overflow error: compressed int is negative");
+    if(new > INT_MAX) {
+        set_fatal_error(zck, "Overflow error: compressed int is too large");
         return false;
     }
+    *val = (int)new;
     return true;
 }
